@@ -43,7 +43,11 @@ def impl(c):
     # mutate a result: operands must not move (no shared storage)
     a.lending_move(G["names"][0]); a.chip_transfer(G["names"][0], G["names"][-1], 3)
     out["pure"] = before == snap()
-    try: out["chip"] = L(chip(d.graph, (G["names"] + ["zz_unknown"])[c["v"]]))
+    try:
+        ch = chip(d.graph, (G["names"] + ["zz_unknown"])[c["v"]]); out["chip"] = L(ch)
+        # the generators hand out new objects: a result that is modified in place must not be what the next call returns
+        ch.lending_move(G["names"][c["v"]]); ch.chip_transfer(G["names"][0], G["names"][-1], 2); z = zero(d.graph); z.borrowing_move(G["names"][0])
+        out["chip_again"] = L(chip(d.graph, common.fresh(G["names"][c["v"]]))); out["zero_again"] = L(zero(d.graph))
     except ValueError: out["chip"] = "err"
     d2 = common.build_impl_divisor(c["G2"], c["E2"], rng=rng) if c["kind"] != "same" else d
     out["eq"] = bool(d == d2); out["eq_sym"] = bool(d2 == d); out["ne_other_type"] = not (d == 5)
@@ -69,6 +73,8 @@ def judge(c, r, mo):
         if not o[k]: out.append({"what": "law '%s' failed (operands modified / shared storage / group law)" % k})
     ch = "err" if mo[3][0] == "err" else [int(x) for x in mo[3][1:]]
     if o["chip"] != ch: out.append({"what": "chip(G, v=%d) = %s, model %s" % (c["v"], o["chip"], ch)})
+    if ch != "err" and o.get("chip_again") != ch: out.append({"what": "chip(G, v=%d) asked again after its first result was modified in place = %s, model %s" % (c["v"], o.get("chip_again"), ch)})
+    if ch != "err" and o.get("zero_again") != [0] * c["G"]["n"]: out.append({"what": "zero(G) asked again after its first result was modified in place = %s" % (o.get("zero_again"),)})
     eq = mo[2][0] == "1"
     if o["eq"] != eq or o["eq_sym"] != eq: out.append({"what": "== returned %s/%s, model %s (kind=%s)" % (o["eq"], o["eq_sym"], eq, c["kind"])})
     a2 = " ".join(mo[4]).split("|")
